@@ -79,11 +79,8 @@ func parseUriParameters(s string, sipUri *SIPURI) error {
 	for _, param := range strings.Split(s, ";") {
 		pos := strings.IndexByte(param, '=')
 		if pos == -1 {
-			if param == "lr" {
-				sipUri.Parameters = append(sipUri.Parameters, KeyValue{Key: "lr", Value: ""})
-			} else {
-				return errors.New("invalid parameter format")
-			}
+			// a parameter without value, "lr" is the most common one
+			sipUri.Parameters = append(sipUri.Parameters, KeyValue{Key: param, Value: ""})
 		} else {
 			name := param[0:pos]
 			value := param[pos+1:]
